@@ -203,7 +203,9 @@ Proof.
   - pose proof (next_sod_spec t sod0 ltac:(lia)) as S0.
     pose proof (next_sod_spec t 0 ltac:(lia)) as S1.
     pose proof (next_day_spec md d (n0 + 1) h Hh) as D1.
-    destruct (if day_matches md d n0 then next_sod t sod0 else None) as [x0|] eqn:E0.
+    revert S0 S1 D1.
+    generalize (next_sod t sod0) (next_sod t 0) (next_day md d (n0 + 1) h). intros ns0 ns1 nd1 S0 S1 D1.
+    destruct (if day_matches md d n0 then ns0 else None) as [x0|] eqn:E0.
     + intros E. injection E as <- <-.
       destruct (day_matches md d n0) eqn:Ed; [|discriminate E0]. rewrite E0 in S0.
       destruct S0 as (A & B & C).
@@ -212,8 +214,8 @@ Proof.
       destruct (Z_lt_le_dec n0 n') as [G|G]; [left; exact G|right].
       split; [lia|]. destruct (Z_lt_le_dec x' x0) as [G'|G']; [|exact G'].
       rewrite C in Sm by lia. discriminate Sm.
-    + destruct (next_day md d (n0 + 1) h) as [n1|]; [|discriminate].
-      destruct (next_sod t 0) as [x1|]; [|discriminate].
+    + destruct nd1 as [n1|]; [|discriminate].
+      destruct ns1 as [x1|]; [|discriminate].
       intros E. injection E as <- <-.
       destruct D1 as (A & B & C). destruct S1 as (A' & B' & C').
       split; [lia|]. split; [exact B|]. split; [split; [exact B'|lia]|].
@@ -228,7 +230,8 @@ Proof.
       split; [lia|]. destruct (Z_lt_le_dec x' x1) as [G'|G']; [|exact G'].
       rewrite C' in Sm by lia. discriminate Sm.
   - pose proof (next_day_spec md d n0 h Hh) as D1.
-    destruct (next_day md d n0 h) as [n1|]; [|discriminate].
+    revert D1. generalize (next_day md d n0 h). intros nd1 D1.
+    destruct nd1 as [n1|]; [|discriminate].
     intros E. injection E as <- <-. destruct D1 as (A & B & C).
     split; [lia|]. split; [exact B|]. split; [reflexivity|].
     intros n' x' L Hn Hx Dm Sm. subst x'.
@@ -252,26 +255,28 @@ Proof.
   pose proof (next_sod_spec t sod0 ltac:(lia)) as S0.
   pose proof (next_sod_spec t 0 ltac:(lia)) as S1.
   pose proof (next_day_spec md d (n0 + 1) h Hh) as D1.
-  destruct (if day_matches md d n0 then next_sod t sod0 else None) as [x0|] eqn:E0.
+  revert S0 S1 D1.
+  generalize (next_sod t sod0) (next_sod t 0) (next_day md d (n0 + 1) h). intros ns0 ns1 nd1 S0 S1 D1.
+  destruct (if day_matches md d n0 then ns0 else None) as [x0|] eqn:E0.
   - destruct (day_matches md d n0) eqn:Ed; [|discriminate E0]. rewrite E0 in S0.
     destruct S0 as (A & B & C).
     specialize (Least n0 x0 ltac:(lia) ltac:(lia) ltac:(lia) Ed B).
     assert (n = n0) by lia. subst n.
     destruct (Z_lt_le_dec x x0) as [G|G]; [rewrite C in Sm by lia; discriminate Sm|].
-    f_equal. f_equal. lia.
+    assert (x = x0) by lia. subst x0. reflexivity.
   - assert (n0 < n).
     { destruct (Z_lt_le_dec n0 n) as [G|G]; [exact G|exfalso].
       assert (n = n0) by lia. subst n. rewrite Dm in E0. rewrite E0 in S0.
       rewrite S0 in Sm by lia. discriminate Sm. }
-    destruct (next_day md d (n0 + 1) h) as [n1|].
+    destruct nd1 as [n1|].
     2:{ rewrite D1 in Dm by lia. discriminate Dm. }
-    destruct (next_sod t 0) as [x1|].
+    destruct ns1 as [x1|].
     2:{ rewrite S1 in Sm by lia. discriminate Sm. }
     destruct D1 as (A & B & C). destruct S1 as (A' & B' & C').
     specialize (Least n1 x1 ltac:(lia) ltac:(lia) ltac:(lia) B B').
     destruct (Z_lt_le_dec n n1) as [G|G]; [rewrite C in Dm by lia; discriminate Dm|].
     assert (n = n1) by lia. subst n1.
     destruct (Z_lt_le_dec x x1) as [G'|G']; [rewrite C' in Sm by lia; discriminate Sm|].
-    f_equal. f_equal. lia.
+    assert (x = x1) by lia. subst x1. reflexivity.
 Qed.
 Print Assumptions next_match_intro.
